@@ -511,6 +511,25 @@ func genSchedPlan(seed uint64, pool []plan.Op, byLang map[int][]int, neutral []i
 		cand = append(cand, byLang[l]...)
 	}
 	sp := &schedPlan{Focus: focus}
+	if r.Intn(12) == 0 { // every language's table in one process: 5 tasks x 4 validations covering all ten twice
+		sp.Focus = AllLangs
+		lp := append(r.Perm(ref.NumLang), r.Perm(ref.NumLang)...)
+		for t := 0; t < 5; t++ {
+			var ops []plan.Op
+			for k := 0; k < 4; k++ {
+				c := byLang[lp[t*4+k]]
+				for try := 0; try < 20; try++ {
+					op := pool[c[r.Intn(len(c))]]
+					if op.K == "check" || op.K == "valid" {
+						ops = append(ops, op)
+						break
+					}
+				}
+			}
+			sp.Tasks = append(sp.Tasks, ops)
+		}
+		nt = 0
+	}
 	for t := 0; t < nt; t++ {
 		no := r.Range(1, 4)
 		var ops []plan.Op
@@ -535,7 +554,7 @@ func genSchedPlan(seed uint64, pool []plan.Op, byLang map[int][]int, neutral []i
 	case x < 7:
 		sc.Policy = "pct"
 		sc.D = r.Range(1, 3)
-		sc.EstSteps = int64(focusN)*4200 + int64(nt)*300
+		sc.EstSteps = int64(len(sp.Focus))*4200 + int64(len(sp.Tasks))*300
 	case x < 9:
 		sc.Policy = "walk"
 		sc.MeanGap = 5000
@@ -546,7 +565,7 @@ func genSchedPlan(seed uint64, pool []plan.Op, byLang map[int][]int, neutral []i
 		sort.Ints(sc.HotSites)
 	default:
 		sc.Policy = "serial"
-		sc.Order = r.Perm(nt)
+		sc.Order = r.Perm(len(sp.Tasks))
 	}
 	sp.Schedule = sc
 	return sp
@@ -666,7 +685,7 @@ func CheckC12(e *Env) (int, error) {
 				tot.OtherStepsInBuild += st.OtherStepsInBuild
 				tot.LockAcquires += st.LockAcquires
 				digests[out.Digest] = true
-				nt := st.OnceMultiEnter >= 1 && (st.PreemptInBuild >= 1 || st.BlockedOnOnce >= 1)
+				nt := (st.OnceMultiEnter >= 1 && (st.PreemptInBuild >= 1 || st.BlockedOnOnce >= 1)) || st.BlockedOnLock >= 1
 				if nt {
 					nontrivial++
 					ntDigests[out.Digest] = true
@@ -753,7 +772,7 @@ func CheckC12(e *Env) (int, error) {
 	cov := map[string]interface{}{
 		"evaluations":         runs,
 		"distinct_nontrivial": len(ntDigests),
-		"rule":                "a case = one fresh race-built process running 2-8 caller goroutines x 1-4 calls under one seeded schedule (random walk with mean gap 1..5000, PCT with 1-3 priority change points, hot-site preemption, or serial), preemption possible before every statement of package bip39, at every sync.Once/lock operation and at every read of the simulated device. Non-trivial: >= 2 tasks entered the same language's sync.Once and a task was preempted inside the table construction or blocked on the running Once. Distinct: by run digest (every (task, site) step, every scheduler event, every outcome).",
+		"rule":                "a case = one fresh race-built process running 2-8 caller goroutines x 1-4 calls under one seeded schedule (random walk with mean gap 1..5000, PCT with 1-3 priority change points, hot-site preemption, or serial), preemption possible before every statement of package bip39, at every sync.Once/lock operation and at every read of the simulated device. Non-trivial: >= 2 tasks entered the same language's sync.Once and a task was preempted inside the table construction or blocked on the running Once (or, for lock-based trees, a task blocked on a held lock). Distinct: by run digest (every (task, site) step, every scheduler event, every outcome).",
 		"exhaustive":          false,
 		"samples":             samples,
 		"runs":                runs,
